@@ -235,6 +235,13 @@ def _scenarios(repo):
         t.link(t.output(q, pull=True), [], a)
         return a
 
+    def via_pull_delayed(t):
+        b, p, a = t.comp("B"), t.comp("P", timed=False), t.comp("A")
+        _ads, reps = _reps(repo)
+        t.link(t.output(b), [], p)
+        t.link(t.output(p, pull=True), [reps[lek.DELAY]], a)
+        return a
+
     def fork(t):
         b, c, a = t.comp("B"), t.comp("C"), t.comp("A")
         t.link(t.output(b), [], a, "in1")
@@ -320,6 +327,7 @@ def _scenarios(repo):
     mk("chain3", chain3, "R03")
     mk("via-pull", via_pull, "R03")
     mk("via-pull2", via_pull2, "R03")
+    mk("via-pull-delayed", via_pull_delayed, "R03")
     mk("fork", fork, "R03")
     mk("pull-then-time", pull_then_time, "R03")
     mk("shared-output", shared_time, "R03")
@@ -508,7 +516,7 @@ def r03_r09_step(repo, sink):
                    ok=f"{len(paths)} lag assignments: updated component / error as in the reference semantics",
                    bad=worst or "", paths=len(paths))
     sink.note("R03.step.paths", n_paths)
-    sink.floor("R03", "scheduling-step scenarios", len(_scenarios(repo)), 15)
+    sink.floor("R03", "scheduling-step scenarios", len(_scenarios(repo)), 16)
 
 
 def r09_structure(repo, sink):
@@ -834,3 +842,7 @@ def _clock_store(s):
                 else:
                     return "nested"
     return top
+
+
+def _stores_name(fn_node, name):
+    return any(isinstance(n, ast.Name) and n.id == name and isinstance(n.ctx, (ast.Store, ast.Del)) for n in fn_walk(fn_node))
